@@ -79,7 +79,7 @@ class Build:
 def run(tier, seed):
     n = 40 if tier == "quick" else 500
     progs = common.gen_programs(n // 2, seed, vars=3) + common.gen_programs(n // 2, seed + 5, vars=3, externals=1.0)
-    return runner.run_relational(
+    nviol = runner.run_relational(
         "C17", progs, Build(tier, seed), tier, seed, "model_checking",
         rule="generated programs (half with bound externals) x a random explored history cut at any point, optionally "
              "followed by an unfinished async slice, flow switches, a path jump, a load or a host assignment, then "
@@ -87,3 +87,7 @@ def run(tier, seed):
              "history before the reset made progress and the reset succeeded",
         ex_kw=dict(depth=3 if tier == "quick" else 5, max_paths=10 if tier == "quick" else 50),
         assumptions=["the harness re-applies the story seed after reset (verif hook); the property is stated for equal seeds"])
+    # the same property against the executable model of the host interface (absolute oracle, Tier-S programs)
+    import hostmodel
+    nviol += hostmodel.check("C17", "reset", tier, seed)
+    return nviol
